@@ -1030,17 +1030,20 @@ def update_checks(model, M, rng, stats):
         for slot, cn in kids:
             if cn in M and accessor(M[n], cls, slot) is not NOT_HELD:
                 holders.setdefault(cn, []).append((n, slot))
-    tainted = set()   # below a transform's own parameters: the transformed value is not refreshed (C11)
+    # leaves that reach a TransformedParameter through a parameter OF ITS TRANSFORM (directly or through views /
+    # other derived parameters) come first: the holder must see their updates like any other
+    below = set()
     todo = [cn for n, (cls, _, kids) in heap.items() if cls == "TransformedParameter"
             for slot, cn in kids if slot.startswith("parameters.")]
     while todo:
         n = todo.pop()
-        if n not in tainted:
-            tainted.add(n)
+        if n not in below:
+            below.add(n)
             todo += [cn for _, cn in heap[n][2]]
-    leaves = [n for n in M if heap[n][0] == "Parameter" and holders.get(n) and n not in tainted]
+    leaves = [n for n in M if heap[n][0] == "Parameter" and holders.get(n)]
     rng.shuffle(leaves)
-    for n in leaves[:3]:
+    leaves.sort(key=lambda n: n not in below)
+    for n in leaves[:4]:
         p = M[n]
         up = set()
         todo = [n]
